@@ -261,6 +261,15 @@ static void rowops_step(mzd_t *A) {
   switch (op) {
   case 0: case 1: {
     int ra = vh_randint(0, m - 1), rb = vh_randint(0, m - 1);
+    if (vh_randint(0, 2) == 0) {
+      /* the variant that swaps from a given word on (start block 0 .. width; width = nothing to swap) */
+      int sb = vh_randint(0, A->width);
+      vh_begin(&e, "_row_swap"); vh_pi(&e, "a", ra); vh_pi(&e, "b", rb); vh_pi(&e, "sb", sb);
+      vh_opnd(&e, "A", 'b', A); vh_pre(&e);
+      if (VH_CALL(&e)) _mzd_row_swap(A, ra, rb, sb);
+      VH_END(&e); vh_post(&e);
+      break;
+    }
     vh_begin(&e, "row_swap"); vh_pi(&e, "a", ra); vh_pi(&e, "b", rb);
     vh_opnd(&e, "A", 'b', A); vh_pre(&e);
     if (VH_CALL(&e)) mzd_row_swap(A, ra, rb);
